@@ -121,11 +121,15 @@ def programs(seed, n, syms=gen.SYMS, tids=None):
                 steps.append({"op": "fuse", "in": ["v0f"], "out": [f"h{k}"], "args": {"groups": [[0, 1]]}})
                 steps.append(rel("obs", "C15.history_independent.fuse_prefused", f"h{k}", "ref_ff"))
         # the default contraction mode context
-        for j in range(2):
+        for j in range(4):
             a = {"mode": rng.choice(["fused", "blockwise", "auto"]), "raise": rng.random() < 0.5}
             if rng.random() < 0.5:
                 a["nested"] = rng.choice(["fused", "blockwise"])
                 a["raise_inner"] = rng.random() < 0.5
+            if rng.random() < 0.5:
+                a["prebuilt"] = True
+                if rng.random() < 0.5:
+                    a["preset"] = rng.choice(["fused", "blockwise", "auto"])
             steps.append({"op": "mode_ctx", "in": [], "out": [f"m{j}"], "args": a})
         progs.append({"tid": tids(), "inputs": fam, "steps": steps})
     return progs
